@@ -12,11 +12,13 @@ using namespace vf;
 int const MSS = 1475;
 struct RouteCfg { int bw; int64_t lat; const char* name; };
 const RouteCfg ROUTES[] = { { 0, 1000000, "lat1ms" }, { 1000000, 40000000, "1MB/s+40ms" }, { 50000, 0, "50kB/s" } };
-struct WPlan { std::vector<int> sizes; int layout; const char* name; }; // layout: 0 one buffer, 1 two buffers (odd cut), 2 three buffers (middle one empty)
+struct WPlan { std::vector<int> sizes; int layout; const char* name; }; // layout: 0 one buffer, 1 two buffers (odd cut), 2 three buffers (middle one empty), 3 one buffer and the connecting side offers its first write right after async_connect(), before the handshake is over
 const WPlan WPLANS[] = {
 	{ { 1 }, 0, "w[1]" }, { { MSS - 1, MSS + 1 }, 1, "w[mss-1,mss+1]x2bufs" }, { { 3 * MSS + 7 }, 2, "w[3mss+7]x3bufs" }, { { MSS, 1, MSS, 700 }, 0, "w[mss,1,mss,700]" }, { { 5 * MSS }, 1, "w[5mss]x2bufs" }, { { 60, 40 }, 0, "w[60,40]" },
-	/* used by the progress check only: */ { { 700, 700, 700, 700, 700, 700 }, 0, "w[700x6]" }, { { 10 * MSS }, 1, "w[10mss]x2bufs" } };
-int const N_WPLANS_STREAM = 6, N_WPLANS_ALL = 8;
+	/* used by the progress check only: */ { { 700, 700, 700, 700, 700, 700 }, 0, "w[700x6]" }, { { 10 * MSS }, 1, "w[10mss]x2bufs" },
+	/* both checks: */ { { MSS + 1, 700 }, 3, "w[mss+1,700] first write during the handshake" } };
+int const N_WPLANS_ALL = 9;
+inline bool wplan_for_stream(int wp) { return wp < 6 || wp == 8; }
 enum RStyle { R_ASYNC, R_WAIT_NONBLOCK, R_ONCE, R_LATE /* the first read is posted 500 ms after the connection is up: everything, end-of-file included, may be queued by then */ };
 struct RPlan { RStyle style; std::vector<int> bufs; const char* name; };
 const RPlan RPLANS[] = { { R_ASYNC, { 7 }, "read(7)" }, { R_ASYNC, { MSS }, "read(mss)" }, { R_ASYNC, { 100, 4096 }, "read(100+4096)" }, { R_WAIT_NONBLOCK, { 1000 }, "wait+read_some(1000)*" }, { R_ONCE, { 500 }, "read(500) once, then stop" },
@@ -175,6 +177,7 @@ struct Exec
 		connected = accepted = false;
 		acc->async_accept(*srv, [this](error_code const& ec) { tick(); if (ec) { if (ec != asio::error::operation_aborted) fail("accept: " + ecs(ec)); return; } accepted = true; srv->non_blocking(true); b.s = srv.get(); start(); });
 		cli->async_connect(ip::tcp::endpoint(addr("10.0.1.1"), 6000), [this](error_code const& ec) { tick(); if (ec) { if (ec != asio::error::operation_aborted) fail("connect: " + ecs(ec)); return; } connected = true; cli->non_blocking(true); start(); });
+		if (a.layout == 3 && !a.plan.empty()) pump_write(a); // offered before the handshake is over: the socket parks it and resumes it itself
 	}
 
 	void quiescence_checks()
